@@ -13,14 +13,15 @@ abbrev Str := List Char
 
 /-! ## strings.Split on '/' -/
 
+/-- put a character in front of the first piece -/
+def consHead (c : Char) : List Str → List Str
+  | [] => [[c]]           -- unreachable below: `split` never returns []
+  | h :: t => (c :: h) :: t
+
 /-- `strings.Split(s, "/")`: always at least one piece -/
 def split : Str → List Str
   | [] => [[]]
-  | c :: cs =>
-    if c = '/' then [] :: split cs
-    else match split cs with
-      | [] => [[c]]           -- unreachable: `split` never returns []
-      | h :: t => (c :: h) :: t
+  | c :: cs => if c = '/' then [] :: split cs else consHead c (split cs)
 
 /-- `strings.Join(segs, "/")` -/
 def glue : List Str → Str
@@ -165,16 +166,31 @@ def namedTarget (sf : SpokFile) (cwd : Str) (fs : FS) (n : Str) : Except Err Str
   | none => .error (.undefinedOutput n)
   | some v => statted fs (abs cwd v)
 
-def taskTargets (sf : SpokFile) (cwd : Str) (fs : FS) (t : Task) : Except Err (List Str) := do
-  let gs := t.globOutputs.flatMap (globTargets sf cwd)
-  let fl ← t.fileOutputs.mapM (fun o => statted fs (fileTarget sf cwd o))
-  let nm ← t.namedOutputs.mapM (namedTarget sf cwd fs)
-  pure (gs ++ fl ++ nm)
+/-- `mapM` in `Except`, first error wins -/
+def mapE {α β ε} (f : α → Except ε β) : List α → Except ε (List β)
+  | [] => .ok []
+  | a :: l =>
+    match f a with
+    | .error e => .error e
+    | .ok b =>
+      match mapE f l with
+      | .error e => .error e
+      | .ok bs => .ok (b :: bs)
 
-/-- the list `toRemove` of `App.clean` -/
-def targets (sf : SpokFile) (cwd : Str) (fs : FS) : Except Err (List Str) := do
-  let per ← sf.tasks.mapM (taskTargets sf cwd fs)
-  pure (per.flatten ++ [sf.cacheDir])
+def taskTargets (sf : SpokFile) (cwd : Str) (fs : FS) (t : Task) : Except Err (List Str) :=
+  match mapE (fun o => statted fs (fileTarget sf cwd o)) t.fileOutputs with
+  | .error e => .error e
+  | .ok fl =>
+    match mapE (namedTarget sf cwd fs) t.namedOutputs with
+    | .error e => .error e
+    | .ok nm => .ok (t.globOutputs.flatMap (globTargets sf cwd) ++ fl ++ nm)
+
+/-- the list `toRemove` of `App.clean` (the tasks are a Go map: their order is immaterial for the result,
+    every error is raised before anything is removed) -/
+def targets (sf : SpokFile) (cwd : Str) (fs : FS) : Except Err (List Str) :=
+  match mapE (taskTargets sf cwd fs) sf.tasks with
+  | .error e => .error e
+  | .ok per => .ok (per.flatten ++ [sf.cacheDir])
 
 /-- `containsSpokfile`: the path is the spokfile, or `filepath.Rel(path, spokfile)` does not climb, i.e.
     the path is a prefix directory of the spokfile.  Every path handed to it is absolute (it came out
